@@ -1,5 +1,5 @@
 (* C25 — SyncedPool: every crash point of every history is consistent (see props/C25.v). *)
-From Coq Require Import NArith List Bool Lia Permutation.
+From Coq Require Import NArith List Bool Lia Permutation PeanoNat Compare_dec.
 From LV Require Import lib.Bytes lib.BytesFacts model.CrashBase model.SyncedPool proofs.CrashBaseProofs.
 Import ListNotations.
 Local Open Scope N_scope.
@@ -809,3 +809,188 @@ Section Flush.
       + intros key. apply (Eqv n x s0 G Es key).
   Qed.
 End Flush.
+
+(* ------------------------------------------------------------------ histories *)
+Lemma firstn_app_le {A} (a b : list A) j : (j <= length a)%nat -> firstn j (a ++ b) = firstn j a.
+Proof.
+  intros H. rewrite firstn_app. replace (j - length a)%nat with 0%nat by lia. cbn. apply app_nil_r.
+Qed.
+Lemma firstn_app_ge {A} (a b : list A) j :
+  (length a <= j)%nat -> firstn j (a ++ b) = a ++ firstn (j - length a) b.
+Proof. intros H. rewrite firstn_app. rewrite firstn_all2; auto. Qed.
+
+Section Run.
+  Variable fk : bytes.
+  Variable scale : N.
+
+  Lemma Pid_safe recs k orc w :
+    (forall rc, orc = Some rc -> In rc recs /\ (r_pos rc <= k)%nat) -> Pid fk orc w -> safe fk recs k w.
+  Proof.
+    intros Ho [A [B|B]]; [eapply safe_of_agrees; eauto|apply safe_of_dirty; auto].
+  Qed.
+
+  (* appending the durable operations of one user operation *)
+  Lemma extend_safe log ops recs recs' orc orc' :
+    (forall j, safe fk recs j (crash log j)) ->
+    (forall rc, In rc recs -> In rc recs') ->
+    (forall rc, orc = Some rc -> In rc recs /\ (r_pos rc <= length log)%nat) ->
+    strict_prefixes (Pid fk orc) ops (apply_dops log []) ->
+    (forall rc, orc' = Some rc -> In rc recs' /\ (r_pos rc <= length (log ++ ops))%nat) ->
+    agrees fk orc' (apply_dops (log ++ ops) []) ->
+    forall j, safe fk recs' j (crash (log ++ ops) j).
+  Proof.
+    intros H0 Hsub Ho Hs Ho' Ha j. unfold crash.
+    destruct (le_lt_dec j (length log)) as [Hj|Hj].
+    - rewrite firstn_app_le; auto. eapply safe_mono; [exact Hsub|apply Nat.le_refl|apply H0].
+    - rewrite firstn_app_ge by lia. rewrite apply_dops_app.
+      destruct (le_lt_dec (length ops) (j - length log)) as [Hk|Hk].
+      + rewrite firstn_all2 by lia. rewrite <- apply_dops_app.
+        apply (safe_of_agrees fk recs' j _ orc'); auto.
+        intros rc E. destruct (Ho' _ E) as [X Y]. split; auto. rewrite app_length in Y. lia.
+      + apply (Pid_safe recs' j orc).
+        * intros rc E. destruct (Ho _ E). split; auto. lia.
+        * apply (strict_prefixes_firstn _ _ _ _ Hs Hk).
+  Qed.
+
+  Definition run_inv (s : run_state) : Prop :=
+    pool_inv fk (rs_pool s) (rs_spec s) (apply_dops (rs_log s) []) /\
+    (exists orc, (forall rc, orc = Some rc -> In rc (rs_recs s)) /\
+                 agrees fk orc (apply_dops (rs_log s) [])) /\
+    (forall rc, In rc (rs_recs s) -> (r_pos rc <= length (rs_log s))%nat) /\
+    (forall j, safe fk (rs_recs s) j (crash (rs_log s) j)).
+
+  Lemma run_inv_init : run_inv run_init.
+  Proof.
+    unfold run_inv, run_init; cbn. split; [|split; [|split]].
+    - constructor; cbn; auto.
+      + constructor.
+      + intros n. split; [intros H; contradiction|intros [x [H _]]; discriminate].
+      + intros n; tauto.
+      + intros n x s H; discriminate.
+      + intros n x H; discriminate.
+    - exists None. split; [intros rc H; discriminate|]. intros n c H; discriminate.
+    - intros rc [].
+    - intros j. unfold crash. rewrite firstn_nil. cbn. split.
+      + intros n c H; discriminate.
+      + intros m [n [c H]]; discriminate.
+  Qed.
+
+  (* user operations that perform no durable operation and leave the records alone *)
+  Lemma run_inv_quiet s p' sp' :
+    run_inv s -> pool_inv fk p' sp' (apply_dops (rs_log s) []) ->
+    run_inv (mkRun p' sp' (rs_log s ++ []) (rs_recs s)).
+  Proof.
+    intros [I [Ho [Hp Hs]]] I'. unfold run_inv; cbn. rewrite app_nil_r. auto.
+  Qed.
+
+  Lemma under_inv p sp W n x :
+    pool_inv fk p sp W -> pget n (p_wr p) = Some x -> w_inited x = false ->
+    pool_inv fk (mkPool (pset n (mkWr true (w_cache x)) (p_wr p)) (p_queued p)) sp (apply_dop W (DOpen n)).
+  Proof.
+    intros [A B C R K Q] G Hi.
+    assert (Wn : wget n W = None).
+    { destruct (wget n W) eqn:E; auto. exfalso.
+      assert (Y : wget n W <> None) by congruence. apply B in Y. destruct Y as [y [Y1 Y2]]. congruence. }
+    cbn [apply_dop]. rewrite Wn.
+    constructor; cbn [p_wr p_queued]; auto.
+    - apply pset_names_nodup; auto.
+    - intros m. destruct (N.eq_dec n m) as [->|Hne].
+      + rewrite wget_wset_eq, pget_pset_eq. split; [intros _; eexists; split; reflexivity|discriminate].
+      + rewrite wget_wset_neq, pget_pset_neq; auto.
+    - intros m. destruct (N.eq_dec n m) as [->|Hne].
+      + rewrite pget_pset_eq. split; [discriminate|]. intros H. apply C in H. congruence.
+      + rewrite pget_pset_neq; auto.
+    - intros m y s G1 G2 key. destruct (N.eq_dec n m) as [->|Hne].
+      + rewrite pget_pset_eq in G1. inversion G1; subst y. rewrite wget_wset_eq.
+        rewrite <- (R m x s G G2 key). unfold view; cbn [w_cache]. rewrite Wn.
+        destruct (cget key (w_cache x)); auto.
+      + rewrite pget_pset_neq in G1; auto. rewrite wget_wset_neq; auto. all: try (eapply R; eauto).
+    - intros m y G1. destruct (N.eq_dec n m) as [->|Hne].
+      + rewrite pget_pset_eq in G1. inversion G1; subst y. cbn. eapply K; eauto.
+      + rewrite pget_pset_neq in G1; auto. all: try (eapply K; eauto).
+  Qed.
+
+  Lemma run_step_inv s o : run_inv s -> hop_avoids fk o = true -> run_inv (run_step fk scale s o).
+  Proof.
+    intros Inv Ha. pose proof Inv as [I [[orc [Ho Hag]] [Hp Hs]]].
+    unfold run_step. destruct o as [n|n|n k v|n k|n ws|n|id os]; cbn [pool_step spec_step].
+    - (* HOpen *)
+      destruct (get_db_inv fk _ _ _ n I) as [I1 _]. apply (run_inv_quiet s _ _ Inv I1).
+    - (* HUnder *)
+      destruct (get_db_inv fk _ _ _ n I) as [I1 [G1 _]].
+      destruct (get_db n (rs_pool s)) as [p1 x] eqn:Eg. cbn [fst snd] in I1, G1.
+      destruct (w_inited x) eqn:Ei.
+      + apply (run_inv_quiet s _ _ Inv I1).
+      + unfold run_inv; cbn [rs_pool rs_spec rs_log rs_recs].
+        split; [|split; [|split]].
+        * rewrite apply_dops_app. apply under_inv; auto.
+        * exists orc. split; auto. rewrite apply_dops_app. apply agrees_open; auto.
+        * intros rc Hr. rewrite app_length. specialize (Hp _ Hr). lia.
+        * apply (extend_safe (rs_log s) [DOpen n] (rs_recs s) (rs_recs s) orc orc).
+          -- exact Hs.
+          -- auto.
+          -- intros rc E. split; auto. all: try (apply Hp; auto).
+          -- cbn. split; auto. all: try (split; [eapply agrees_nomark; eauto|left; auto]).
+          -- intros rc E. split; auto. rewrite app_length. specialize (Hp _ (Ho _ E)). lia.
+          -- rewrite apply_dops_app. apply agrees_open; auto.
+    - (* HPut *)
+      cbn in Ha. apply (run_inv_quiet s _ _ Inv).
+      apply cache_write_inv; auto.
+      + apply negb_true_iff in Ha. apply beqb_false; auto.
+      + intros c key. destruct (bytes_eqb k key) eqn:E.
+        * apply bytes_eqb_eq in E; subst. apply dget_dput_eq.
+        * apply dget_dput_neq. apply beqb_false; auto.
+    - (* HDel *)
+      cbn in Ha. apply (run_inv_quiet s _ _ Inv).
+      apply cache_write_inv; auto.
+      + apply negb_true_iff in Ha. apply beqb_false; auto.
+      + intros c key. destruct (bytes_eqb k key) eqn:E.
+        * apply bytes_eqb_eq in E; subst. apply dget_ddel_eq.
+        * apply dget_ddel_neq. apply beqb_false; auto.
+    - (* HBatch *)
+      cbn in Ha. destruct (get_db_inv fk _ _ _ n I) as [I1 [_ X]].
+      apply (run_inv_quiet s _ _ Inv).
+      apply (cache_writes_inv fk n ws _ _ _ I1 X Ha).
+    - (* HDrop *)
+      destruct (get_db_inv fk _ _ _ n I) as [I1 _].
+      apply (run_inv_quiet s _ _ Inv).
+      destruct I1 as [A B C R K Q]. constructor; cbn [p_wr p_queued sp_dbs sp_doomed]; auto. congruence.
+    - (* HFlush *)
+      set (log' := rs_log s ++ snd (flush fk scale id os (rs_pool s))).
+      destruct (flush_correct fk scale _ _ _ id os orc (length log') I Hag) as [I' [Hst Hag']].
+      destruct (flush fk scale id os (rs_pool s)) as [p' ops] eqn:Ef. cbn [fst snd] in *.
+      unfold run_inv; cbn [rs_pool rs_spec rs_log rs_recs].
+      set (rc' := mkRec (length log') id (with_marks fk id (remove_all (sp_doomed (rs_spec s)) (sp_dbs (rs_spec s))))) in *.
+      split; [|split; [|split]].
+      + rewrite apply_dops_app. exact I'.
+      + exists (Some rc'). split; [intros rc E; inversion E; subst; apply in_app_iff; right; left; auto|].
+        rewrite apply_dops_app. exact Hag'.
+      + intros rc Hr. apply in_app_iff in Hr. destruct Hr as [Hr|[<-|[]]].
+        * specialize (Hp _ Hr). unfold log'. rewrite app_length. lia.
+        * cbn. unfold log'. lia.
+      + apply (extend_safe (rs_log s) ops (rs_recs s) (rs_recs s ++ [rc']) orc (Some rc')).
+        * exact Hs.
+        * intros rc Hr. apply in_app_iff; auto.
+        * intros rc E. split; auto. all: try (apply Hp; auto).
+        * exact Hst.
+        * intros rc E. inversion E; subst. split; [apply in_app_iff; right; left; auto|]. cbn. unfold log'. lia.
+        * rewrite apply_dops_app. exact Hag'.
+  Qed.
+
+  Lemma run_pool_inv h : history_avoids fk h = true -> run_inv (run_pool fk scale h).
+  Proof.
+    unfold run_pool. generalize run_inv_init. generalize run_init.
+    induction h as [|o t IH]; intros s Hs Ha; cbn; auto.
+    cbn in Ha. apply andb_true_iff in Ha. destruct Ha as [Ha1 Ha2].
+    apply IH; auto. apply run_step_inv; auto.
+  Qed.
+
+  Theorem pool_crash_consistent h k l :
+    history_avoids fk h = true ->
+    lists_world l (crash (rs_log (run_pool fk scale h)) k) ->
+    crash_consistent fk (rs_recs (run_pool fk scale h)) k (crash (rs_log (run_pool fk scale h)) k) l.
+  Proof.
+    intros Ha L. destruct (run_pool_inv h Ha) as [_ [_ [_ Hs]]].
+    apply safe_consistent; auto.
+  Qed.
+End Run.
